@@ -59,6 +59,8 @@ type mtrigger struct {
 
 type mproc struct {
 	Body string
+	// characteristics as information_schema.routines reports them
+	DataAccess, Security, Deterministic, Comment string
 }
 
 type mdb struct {
@@ -520,11 +522,15 @@ func (m *model) dropTrigger(db, name string) bool {
 }
 
 func (m *model) createProc(db, name, body string) bool {
+	return m.createProcWith(db, name, mproc{Body: body, DataAccess: "CONTAINS SQL", Security: "DEFINER", Deterministic: "NO"})
+}
+
+func (m *model) createProcWith(db, name string, p mproc) bool {
 	d := m.DBs[db]
 	if d == nil || d.Procs[name] != nil {
 		return false
 	}
-	d.Procs[name] = &mproc{Body: body}
+	d.Procs[name] = &p
 	return true
 }
 
@@ -840,7 +846,8 @@ func (m *model) expectedTriggers() (rows []string) {
 func (m *model) expectedRoutines() (rows []string) {
 	for _, dn := range sortedKeys(m.DBs) {
 		for _, pn := range sortedKeys(m.DBs[dn].Procs) {
-			rows = append(rows, row(dn, pn, "PROCEDURE", m.DBs[dn].Procs[pn].Body))
+			p := m.DBs[dn].Procs[pn]
+			rows = append(rows, row(dn, pn, "PROCEDURE", p.Body, p.DataAccess, p.Security, p.Deterministic, p.Comment))
 		}
 	}
 	return
